@@ -37,6 +37,7 @@ SlibTable == << <<"S">>, <<"S", "L">> >>
 LibTable(c) == CASE c = "small" -> { <<"a">>, <<"b">> }
                  [] c = "one"   -> { <<"a">> }
                  [] c = "repl"  -> { <<"a">>, <<"XX">>, <<"XX", "b">>, <<"a", "b">>, <<"XX", "XX">> }
+                 [] c = "repl3" -> { <<"a">>, <<"XX", "b">>, <<"XX", "XX">> }
                  [] c = "merge" -> { <<"a", "ba", "c">>, <<"ab", "a", "c">>, <<"a", "ba", "d">> }
 SrrLibs == { <<"SRR12">>, <<"SRR13">> }
 Libs == LibTable(LibChoice)
